@@ -200,19 +200,17 @@ example : ∃ fuel₀, ∀ fuel, fuel₀ ≤ fuel →
   𝔽₂ = functions over integer parameters whose body is built from: `;`, declarations of integer
   block-scope objects with and without initialiser, assignment and compound assignment to variables,
   `++`/`--` on variables, expression statements, compound statements, `if`, `if`-`else`, `while`, `do`,
-  `for` (any clause may be missing, the first may be a declaration), `break`, `continue`, `return`; the
+  `for` (any clause may be missing, the first may be a declaration), `switch` with `case`/`default` labels
+  (fall-through, any order, the comparison ladder over the AVL tree of `tree.c` as `casesearch` emits it —
+  connected to `C15.switch_w_correct`/`switch_l_correct`), `break`, `continue`, `return`; the
   expressions are those of 𝔽₁ over parameters and locals.  `CSem2.WT` (decidable) is what the parser
-  guarantees (typing, declaration before use) plus one restriction of the MODEL: no statement follows a
-  `return`/`break`/`continue` in the same block (there cproc opens a block `dead.N` lazily, which
-  `Lower2` places differently).  The theorems hold
+  guarantees (typing, declaration before use, `case` constants distinct after conversion, labels only
+  directly in the body of their `switch`) plus one restriction of the MODEL: no statement other than a
+  `case`/`default` label follows a `return`/`break`/`continue` in the same block, and a `switch` body
+  begins with a label (there cproc opens a block `dead.N` lazily, which `Lower2` places differently).
+  The theorems hold
   for ALL such functions: any size, any nesting of loops and branches, any number of variables (up to
   the stack bound), all in-range arguments, any fuel of the C execution. -/
-
-/-- Functions without `switch` (the `switch` statement is in the model and in the tie; its simulation
-    is the next stage). -/
-def NoSwitch (f : CSem2.Func) : Prop := LowerMach2.noSwitch f.body = true
-
-instance (f : CSem2.Func) : Decidable (NoSwitch f) := by unfold NoSwitch; exact inferInstance
 
 /-- **Semantic preservation for 𝔽₂** (in any program that contains the emitted function and starts with
     an empty stack): if the C execution of the body on the arguments `ρ` reaches `return` with value `v`
@@ -220,7 +218,7 @@ instance (f : CSem2.Func) : Decidable (NoSwitch f) := by unfold NoSwitch; exact 
     returns a representation of `v` for every sufficiently large fuel — it does not get stuck, trap,
     touch memory outside its own slots, or produce output. -/
 theorem lower2_correct_in (cs : Bool) (startid : Nat) (f : CSem2.Func) (ρ : List Int) (v : Int)
-    (hwt : CSem2.WT f) (hns : NoSwitch f) (henv : EnvOK cs f.params ρ)
+    (hwt : CSem2.WT f) (henv : EnvOK cs f.params ρ)
     (hsmall : f.params.length + f.locals.length ≤ 1000000)
     (cfuel : Nat) (hev : CSem2.runC cs cfuel f ρ = some v) (p : Prog) (ext : Ext)
     (hfun : p.funcs[f.name]? = some (FuncInfo.of (Lower2.emitFunc cs startid f)))
@@ -232,47 +230,32 @@ theorem lower2_correct_in (cs : Bool) (startid : Nat) (f : CSem2.Func) (ρ : Lis
     split at hev
     · rename_i w h; cases hev; exact h
     · cases hev
-  exact LowerMach2.lower2_correct_prog cs startid f ρ v hwt (LowerMach2.frag_of_noSwitch _ hns) henv hsmall cfuel
-    hex p ext hfun hstack hsp
+  exact LowerMach2.lower2_correct_prog cs startid f ρ v hwt henv hsmall cfuel hex p ext hfun hstack hsp
 
 /-- **Semantic preservation for 𝔽₂.**  `cs`: signedness of plain `char` on the target; `startid`:
     value of `mkblock`'s counter before the function; `cfuel`: fuel of the C execution. -/
 theorem lower2_correct (cs : Bool) (startid : Nat) (f : CSem2.Func) (ρ : List Int) (v : Int)
-    (ext : Ext) (hwt : CSem2.WT f) (hns : NoSwitch f) (henv : EnvOK cs f.params ρ)
+    (ext : Ext) (hwt : CSem2.WT f) (henv : EnvOK cs f.params ρ)
     (hsmall : f.params.length + f.locals.length ≤ 1000000)
     (cfuel : Nat) (hev : CSem2.runC cs cfuel f ρ = some v) :
     ∃ fuel₀ r, RetRep f.ret v r ∧ ∀ fuel, fuel₀ ≤ fuel →
       runFunc (prog (Lower2.emitFunc cs startid f)) ext f.name (argsOf f.params ρ) fuel =
         ⟨#[], .ret (.scalar r)⟩ := by
-  refine lower2_correct_in cs startid f ρ v hwt hns henv hsmall cfuel hev _ ext
+  refine lower2_correct_in cs startid f ρ v hwt henv hsmall cfuel hev _ ext
     (prog_funcs (Lower2.emitFunc cs startid f)) ?_ ?_
   · rw [prog_initMem]
   · rw [prog_initMem]
 
 /-- `lower2_correct` for functions returning `int`, `unsigned`, `long`, …: the outcome is an equation. -/
 theorem lower2_correct_exact (cs : Bool) (startid : Nat) (f : CSem2.Func) (ρ : List Int) (v : Int)
-    (ext : Ext) (hwt : CSem2.WT f) (hns : NoSwitch f) (henv : EnvOK cs f.params ρ)
+    (ext : Ext) (hwt : CSem2.WT f) (henv : EnvOK cs f.params ρ)
     (hsmall : f.params.length + f.locals.length ≤ 1000000) (hret : 4 ≤ f.ret.size)
     (cfuel : Nat) (hev : CSem2.runC cs cfuel f ρ = some v) :
     ∃ fuel₀, ∀ fuel, fuel₀ ≤ fuel →
       runFunc (prog (Lower2.emitFunc cs startid f)) ext f.name (argsOf f.params ρ) fuel =
         ⟨#[], .ret (.scalar (argOf f.ret v).2)⟩ := by
-  obtain ⟨n, r, hr, h⟩ := lower2_correct cs startid f ρ v ext hwt hns henv hsmall cfuel hev
+  obtain ⟨n, r, hr, h⟩ := lower2_correct cs startid f ρ v ext hwt henv hsmall cfuel hev
   exact ⟨n, fun fuel hf => by rw [h fuel hf, retRep_exact hret hr]⟩
-
-/-- Stated, not proved yet (not claimed): preservation also for functions with `switch` (`case`/`default`
-    labels on the spine of the body, fall-through, `break`).  Missing: the case `switch_` of
-    `LowerMach2.sim_stmt` — the simulation of the `casesearch` ladder (`Lower2.ladder`, to be connected to
-    `C15.switch_w_correct`/`switch_l_correct`) and the lemma that the lowering of the statement after a
-    label is a suffix of the lowering of the body.  Everything else (structural facts `funcstmt_good'`
-    incl. `switch`, labels after jump statements in `sim_seq`, `sim_label`) is proved. -/
-def lower2_correct_full : Prop :=
-  ∀ (cs : Bool) (startid : Nat) (f : CSem2.Func) (ρ : List Int) (v : Int) (ext : Ext),
-    CSem2.WT f → EnvOK cs f.params ρ → f.params.length + f.locals.length ≤ 1000000 →
-    ∀ cfuel, CSem2.runC cs cfuel f ρ = some v →
-    ∃ fuel₀ r, RetRep f.ret v r ∧ ∀ fuel, fuel₀ ≤ fuel →
-      runFunc (prog (Lower2.emitFunc cs startid f)) ext f.name (argsOf f.params ρ) fuel =
-        ⟨#[], .ret (.scalar r)⟩
 
 /-- Stated, not proved (and not claimed): the emitted module passes the IL validator of C03 for every
     well-formed function of 𝔽₂, whatever the arguments.  Checked per generated function by
@@ -345,6 +328,43 @@ example : CSem2.WT ex8 := by decide
 example : CSem2.runC true 20 ex8 [0] = some 0 := by decide   -- 0 → 1 → 1 → 0
 example : CSem2.runC true 20 ex8 [1] = some 0 := by decide   -- 1 → 0 → 1 → 0
 
+/-- `switch`: `int w(int a, long b) { int r = 0; switch (a) { case 1: r = 10; break; case -2: r = 20;
+    case 300: r = r + 1; break; default: r = 7; } switch (b) { case 5: return 1; case 7: r = r + 2; } return r; }` -/
+def ex9 : CSem2.Func :=
+  { name := "w", ret := .int, params := [.int, .long], locals := [.int],
+    body :=
+      .seq (.decl 2 .int (some (.const .int 0)))
+      (.seq (.switch_ (.param .int 0)
+        (.seq (.case_ 1) (.seq (.assign 2 .int (.const .int 10)) (.seq .break_
+        (.seq (.case_ 18446744073709551614) (.seq (.assign 2 .int (.const .int 20))
+        (.seq (.case_ 300) (.seq (.assign 2 .int (.bin .add .int (.param .int 2) (.const .int 1))) (.seq .break_
+        (.seq .default_ (.assign 2 .int (.const .int 7))))))))))))
+      (.seq (.switch_ (.param .long 1)
+        (.seq (.case_ 5) (.seq (.ret (.const .int 1))
+        (.seq (.case_ 7) (.assign 2 .int (.bin .add .int (.param .int 2) (.const .int 2)))))))
+      (.ret (.param .int 2)))) }
+example : CSem2.WT ex9 := by decide
+example : CSem2.runC true 30 ex9 [1, 0] = some 10 := by decide
+/-- `case -2` falls through into `case 300`; the second switch selects `case 7` -/
+example : CSem2.runC true 30 ex9 [-2, 7] = some 23 := by decide
+example : CSem2.runC true 30 ex9 [300, 5] = some 1 := by decide
+/-- no case matches: `default`; then no case and no default: the body is skipped -/
+example : CSem2.runC true 30 ex9 [4, 6] = some 7 := by decide
+
+/-- the theorem applied to `ex9` (`switch`) -/
+example : ∃ fuel₀, ∀ fuel, fuel₀ ≤ fuel →
+    runFunc (prog (Lower2.emitFunc true 0 ex9)) noExt "w" (argsOf ex9.params [-2, 7]) fuel =
+      ⟨#[], .ret (.scalar ⟨.w, 23⟩)⟩ := by
+  have hval : (argOf ex9.ret 23).2 = ⟨.w, 23⟩ := by decide
+  rw [← hval]
+  exact lower2_correct_exact true 0 ex9 [-2, 7] 23 noExt (by decide)
+    ⟨rfl, by
+      intro i t v ht hv
+      match i, ht, hv with
+      | 0, ht, hv => cases ht; cases hv; decide
+      | 1, ht, hv => cases ht; cases hv; decide⟩
+    (by decide) (by decide) 30 (by decide)
+
 /-- loops: `int k(int n) { int s = 0; int i; for (i = 0; i < n; i = i + 1) { if (i == 3) continue;
     if (i > 7) break; s = s + i; } while (n) { n = n - 1; } do { s = s + 1; } while (s < 3); return s; }` -/
 def ex7 : CSem2.Func :=
@@ -381,7 +401,7 @@ example : ∃ fuel₀, ∀ fuel, fuel₀ ≤ fuel →
       ⟨#[], .ret (.scalar ⟨.w, 26⟩)⟩ := by
   have hval : (argOf ex7.ret 26).2 = ⟨.w, 26⟩ := by decide
   rw [← hval]
-  exact lower2_correct_exact true 0 ex7 [20] 26 noExt (by decide) (by decide)
+  exact lower2_correct_exact true 0 ex7 [20] 26 noExt (by decide)
     ⟨rfl, by
       intro i t v ht hv
       match i, ht, hv with
@@ -394,7 +414,7 @@ example : ∃ fuel₀, ∀ fuel, fuel₀ ≤ fuel →
       ⟨#[], .ret (.scalar ⟨.w, 3⟩)⟩ := by
   have hval : (argOf ex6.ret 3).2 = ⟨.w, 3⟩ := by decide
   rw [← hval]
-  exact lower2_correct_exact true 0 ex6 [0] 3 noExt (by decide) (by decide)
+  exact lower2_correct_exact true 0 ex6 [0] 3 noExt (by decide)
     ⟨rfl, by
       intro i t v ht hv
       match i, ht, hv with
@@ -407,7 +427,7 @@ example : ∃ fuel₀, ∀ fuel, fuel₀ ≤ fuel →
       ⟨#[], .ret (.scalar ⟨.w, 603⟩)⟩ := by
   have hval : (argOf ex4.ret 603).2 = ⟨.w, 603⟩ := by decide
   rw [← hval]
-  exact lower2_correct_exact true 0 ex4 [100, 200] 603 noExt (by decide) (by decide)
+  exact lower2_correct_exact true 0 ex4 [100, 200] 603 noExt (by decide)
     ⟨rfl, by
       intro i t v ht hv
       match i, ht, hv with
